@@ -13,7 +13,7 @@ func vLeaf() JsonNode {
 	case 0:
 		return jsonNumber(vF64())
 	case 1:
-		return jsonString(vStr(2))
+		return jsonString(vStrA(vParam("STRLEN", 1)))
 	case 2:
 		return jsonBool(vBool())
 	default:
@@ -80,4 +80,154 @@ func vClone(n JsonNode) JsonNode {
 		return c
 	}
 	return n
+}
+
+// ---- document families (DESIGN.md section 6) ----
+
+// vNestElem: leaf, small array of leaves, or one-key object.
+func vNestElem() JsonNode {
+	switch vChoice(3 + vParam("EMPTYOBJ", 0)) {
+	case 0:
+		return vNum()
+	case 1:
+		return vNumArray(vParam("INNER", 1))
+	case 2:
+		return jsonObject{"k": vNum()}
+	default:
+		return jsonObject{}
+	}
+}
+
+func vNestArray(maxLen int) jsonArray {
+	n := vChoice(maxLen + 1)
+	a := make(jsonArray, n)
+	for i := range a {
+		a[i] = vNestElem()
+	}
+	return a
+}
+
+// vObjDoc: object over keys a,b with symbolic presence; values leaf / array / nested object.
+func vObjDoc(depth int) jsonObject {
+	o := jsonObject{}
+	for _, k := range []string{"a", "b"} {
+		switch vChoice(4) {
+		case 0:
+			// absent
+		case 1:
+			o[k] = vNum()
+		case 2:
+			o[k] = vNumArray(vParam("INNER", 1))
+		default:
+			if depth > 0 {
+				o[k] = vObjDoc(depth - 1)
+			} else {
+				o[k] = jsonObject{"c": vNum()}
+			}
+		}
+	}
+	return o
+}
+
+// vKeyedArray: array of objects carrying "id" (pairwise distinct) and a payload "v".
+func vKeyedArray(maxLen int) jsonArray {
+	n := vChoice(maxLen + 1)
+	a := make(jsonArray, n)
+	ids := make([]float64, n)
+	for i := range a {
+		ids[i] = vF64()
+		for j := 0; j < i; j++ {
+			vAssume(ids[i] != ids[j])
+		}
+		o := jsonObject{"id": jsonNumber(ids[i])}
+		switch vChoice(3) {
+		case 0:
+		case 1:
+			o["v"] = vNum()
+		default:
+			o["v"] = vNumArray(1)
+		}
+		a[i] = o
+	}
+	return a
+}
+
+// vWrap places a document under a key / inside an array / both.
+func vWrap(n JsonNode, how int) JsonNode {
+	switch how {
+	case 1:
+		return jsonObject{"k": n}
+	case 2:
+		return jsonArray{n}
+	case 3:
+		return jsonArray{jsonObject{"k": n}}
+	}
+	return n
+}
+
+// vScalarOrVoid: void, number, string, bool, null, {} or [].
+func vScalarOrVoid() JsonNode {
+	switch vChoice(7) {
+	case 0:
+		return voidNode{}
+	case 1:
+		return vNum()
+	case 2:
+		return jsonString(vStrA(1))
+	case 3:
+		return jsonBool(vBool())
+	case 4:
+		return jsonNull(nil)
+	case 5:
+		return jsonObject{}
+	default:
+		return jsonArray{}
+	}
+}
+
+func vHasNull(n JsonNode) bool {
+	switch t := n.(type) {
+	case jsonNull:
+		return true
+	case jsonObject:
+		for _, v := range t {
+			if vHasNull(v) {
+				return true
+			}
+		}
+	default:
+		if xs, ok := refArr(n); ok {
+			for _, v := range xs {
+				if vHasNull(v) {
+					return true
+				}
+			}
+		}
+	}
+	return false
+}
+
+func isMergeOpt(k int) bool { return k == optMerge || k == optSetMerge || k == optMultisetMerge }
+func isSetOpt(k int) bool   { return k == optSet || k == optSetMerge || k == optSetKeys }
+func isBagOpt(k int) bool   { return k == optMultiset || k == optMultisetMerge }
+func isListOpt(k int) bool  { return k == optNone || k == optMerge }
+
+// vOptChoice: option set chosen among those enabled by the bit mask parameter OPTS.
+func vOptChoice(def int) int {
+	mask := vParam("OPTS", def)
+	var ks []int
+	for k := 0; k < optCount; k++ {
+		if mask&(1<<k) != 0 {
+			ks = append(ks, k)
+		}
+	}
+	return ks[vChoice(len(ks))]
+}
+
+// vObsLabel marks observations whose text depends on the real FNV order (not compared natively).
+func vObsLabel(k int, l string) string {
+	if isListOpt(k) {
+		return l
+	}
+	return "~" + l
 }
